@@ -7,7 +7,7 @@ import random
 from .. import core, coop, gen, impl_conc
 
 ID = "C14"
-BUDGET = {"quick": 600, "thorough": 60000}
+BUDGET = {"quick": 3000, "thorough": 60000}
 RULE = ("scenario = one real threading Scheduler with 2-5 jobs (one-shots and unlimited cyclic jobs, tags), 2-4 controlled threads each "
         "performing 1-3 public operations (exec_jobs forced or not, scheduling, delete_job, delete_jobs by tags/all, get_jobs, jobs, "
         "str, repr), n_threads in {1,2,0}; every lock acquire/release, queue operation, thread start/join and callback boundary "
@@ -34,10 +34,17 @@ def gen_scenario(rng, opts=None):
                      "tags": sorted(rng.sample([1, 2, 3], rng.randint(0, 2)))})
     nthreads = rng.randint(2, 4)
     threads = []
+    # 15%: overlapping exec_jobs calls on a small population of jobs that have never run
+    # (races inside the per-job execution path need two callers that selected the same job)
+    exec_heavy = rng.random() < opts.get("p_exec_heavy", 0.15)
+    if exec_heavy:
+        nthreads = rng.randint(2, 3)
+        jobs = jobs[:rng.randint(1, 2)]
+        nj = len(jobs)
     for _ in range(nthreads):
         ops = []
-        for _o in range(rng.randint(1, 3)):
-            c = rng.random()
+        for _o in range(rng.randint(1, 2) if exec_heavy else rng.randint(1, 3)):
+            c = rng.random() * (0.5 if exec_heavy else 1.0)
             if c < 0.3:
                 ops.append({"op": "exec", "force": rng.random() < 0.2})
             elif c < 0.45:
@@ -57,8 +64,8 @@ def gen_scenario(rng, opts=None):
         threads.append(ops)
     return {"tz": None, "n_threads": rng.choice([1, 1, 2, 0]), "clock0": clock, "advance": rng.choice([2, 2, 0]) * S + rng.choice([0, 500_000]),
             "jobs": jobs, "threads": threads, "ops": [],
-            "sched": {"kind": rng.choice(["random", "random", "pct"]), "seed": rng.randrange(10**9), "depth": rng.randint(1, 4)},
-            "line_preempt": rng.random() < opts.get("p_line", 0.25)}
+            "sched": {"kind": "random" if exec_heavy else rng.choice(["random", "random", "pct"]), "seed": rng.randrange(10**9), "depth": rng.randint(1, 4)},
+            "line_preempt": exec_heavy or rng.random() < opts.get("p_line", 0.4), "cb_len": rng.choice([0, 4, 12]) if exec_heavy else 0}
 
 
 def scenarios(rng, n, tier):
